@@ -227,7 +227,45 @@ def rule_w2(ctx) -> RuleResult:
             # falls to write_attributes: legitimate only as a spelling of 'attributes'
             res.notes.append(f"{where}: route {route!r} is not a dispatcher route (falls through to write_attributes)")
         res.inst(f"{fn.qualname}:{call.lineno} route={route!r}", ok=ok)
+    # W2b: a setter that stores its own backing field and persists through the write_attributes fallback
+    # needs a map entry for that attribute, otherwise the persistence call writes everything but this value
+    for K in families(ctx):
+        amap_vals = set((p.attribute_map(K) or {}).values())
+        seen = set()
+        for c in K.mro:
+            if isinstance(c, str):
+                continue
+            for name, pr in c.props.items():
+                if name in seen:
+                    continue
+                seen.add(name)
+                st = pr.setter
+                if st is None or name in IDENTITY:
+                    continue
+                summ = eng.analyse(st, K)
+                own = ("self", "_" + name) in summ.stores
+                fallback = [r for (rv, r, _, _) in summ.persists if rv == "self" and r is not None and r not in t.routes]
+                if not (own and fallback):
+                    continue
+                ok = name in amap_vals or name in NOT_PERSISTED_BY_DESIGN
+                res.inst(f"{K.name}.{name}: setter persists via {fallback[0]!r}; attribute mapped: {name in amap_vals}", ok=ok)
+                if name in NOT_PERSISTED_BY_DESIGN and name not in amap_vals:
+                    note = f"{st.qualname}: {NOT_PERSISTED_BY_DESIGN[name]}"
+                    if note not in res.notes:
+                        res.notes.append(note)
+                if not ok:
+                    res.find(st.cls.name, name, f"persists _{name} via {fallback[0]!r} but {name} is not in the attribute map",
+                             st.where,
+                             f"{st.qualname} stores self._{name} and calls update_attribute(self, {fallback[0]!r}); that route rewrites the "
+                             f"attributes named in {K.name}'s attribute map, which does not contain {name!r}: the value is never written",
+                             resolved_on=K.name)
     return res
+
+
+# in-memory knobs whose setters call update_attribute although the format has no slot for them
+NOT_PERSISTED_BY_DESIGN = {
+    "default_collocation_distance": "in-memory tolerance of Drillhole, not part of the geoh5 format; the persistence call is a harmless no-op",
+}
 
 
 def _has_init_field(K, fld) -> bool:
@@ -430,7 +468,7 @@ def rule_spec(ctx) -> RuleResult:
         "(so that the setter's 'attributes' route writes it and the loader has a slot for it)",
         floor=5,
     )
-    doc = FormatDoc(ctx.p.repo)
+    doc = FormatDoc(ctx.p.repo, ctx.p.overlay)
     dt = ctx.p.cls("DataType", "data.data_type")
     amap = ctx.p.attribute_map(dt) or {}
     attrs = doc.section_attributes("Data Types")
